@@ -19,6 +19,7 @@ import (
 	"github.com/ansible/receptor/pkg/logger"
 	"github.com/ansible/receptor/pkg/netceptor"
 	"github.com/ansible/receptor/pkg/utils"
+	"github.com/ansible/receptor/pkg/verifhook"
 )
 
 // remoteUnit implements the WorkUnit interface for the Receptor remote worker plugin.
@@ -133,11 +134,17 @@ func (rw *remoteUnit) getConnectionAndRun(ctx context.Context, firstTimeSync boo
 			return err
 		}
 	}
+	if verifhook.On {
+		verifhook.Emit("rw", "rw_background", "id", rw.ID())
+	}
 	go func() {
 		conn, reader := rw.getConnection(ctx)
 		if conn != nil {
 			err := action(ctx, conn, reader)
 			if err != nil {
+				if verifhook.On {
+					verifhook.Emit("rw", "rw_gave_up", "id", rw.ID(), "err", err.Error())
+				}
 				rw.GetWorkceptor().nc.GetLogger().Error("Error running action function: %s", err)
 			}
 		} else {
@@ -189,6 +196,10 @@ func (rw *remoteUnit) startRemoteUnit(ctx context.Context, conn net.Conn, reader
 		return fmt.Errorf("could not parse response: %s", strings.TrimRight(response, "\n"))
 	}
 	red.RemoteUnitID = string(match[1])
+	if verifhook.On {
+		verifhook.Emit("rw", "rw_submitted", "id", rw.ID(), "remote_id", red.RemoteUnitID)
+	}
+	verifhook.CrashPoint("remote_after_submit_answer")
 	rw.UpdateFullStatus(func(status *StatusFileData) {
 		ed := status.ExtraData.(*RemoteExtraData)
 		ed.RemoteUnitID = red.RemoteUnitID
@@ -218,6 +229,9 @@ func (rw *remoteUnit) startRemoteUnit(ctx context.Context, conn net.Conn, reader
 		ed := status.ExtraData.(*RemoteExtraData)
 		ed.RemoteStarted = true
 	})
+	if verifhook.On {
+		verifhook.Emit("rw", "rw_started", "id", rw.ID())
+	}
 
 	return nil
 }
@@ -256,10 +270,21 @@ func (rw *remoteUnit) cancelOrReleaseRemoteUnit(ctx context.Context, conn net.Co
 	}
 	response, err := utils.ReadStringContext(ctx, reader, '\n')
 	if err != nil {
+		if verifhook.On {
+			verifhook.Emit("rw", "rw_request", "id", rw.ID(), "op", workCmd, "result", "lost", "err", err.Error())
+		}
+
 		return fmt.Errorf("read error reading from %s: %s", red.RemoteNode, err)
 	}
 	if response[:5] == "ERROR" {
+		if verifhook.On {
+			verifhook.Emit("rw", "rw_request", "id", rw.ID(), "op", workCmd, "result", "refused", "err", strings.TrimSpace(response))
+		}
+
 		return fmt.Errorf("error cancelling remote unit: %s", response[6:])
+	}
+	if verifhook.On {
+		verifhook.Emit("rw", "rw_request", "id", rw.ID(), "op", workCmd, "result", "ok")
 	}
 
 	return nil
@@ -310,6 +335,9 @@ func (rw *remoteUnit) monitorRemoteStatus(mw *utils.JobContext, forRelease bool)
 		}
 		status, err := utils.ReadStringContext(mw, reader, '\n')
 		if err != nil {
+			if verifhook.On {
+				verifhook.Emit("rw", "rw_poll", "id", rw.ID(), "result", "error", "for_release", forRelease)
+			}
 			rw.GetWorkceptor().nc.GetLogger().Debug("Read error reading from %s: %s\n", remoteNode, err)
 			cerr := conn.(interface{ CloseConnection() error }).CloseConnection()
 			if cerr != nil {
@@ -321,6 +349,9 @@ func (rw *remoteUnit) monitorRemoteStatus(mw *utils.JobContext, forRelease bool)
 		}
 		if status[:5] == "ERROR" {
 			if strings.Contains(status, "unknown work unit") {
+				if verifhook.On {
+					verifhook.Emit("rw", "rw_poll", "id", rw.ID(), "result", "unknown", "for_release", forRelease)
+				}
 				if !forRelease {
 					rw.GetWorkceptor().nc.GetLogger().Debug("Work unit %s on node %s is gone.\n", remoteUnitID, remoteNode)
 					rw.UpdateFullStatus(func(status *StatusFileData) {
@@ -341,6 +372,9 @@ func (rw *remoteUnit) monitorRemoteStatus(mw *utils.JobContext, forRelease bool)
 			rw.GetWorkceptor().nc.GetLogger().Error("Error unmarshalling JSON: %s\n", status)
 
 			return
+		}
+		if verifhook.On {
+			verifhook.Emit("rw", "rw_poll", "id", rw.ID(), "result", "status", "state", si.State, "size", si.StdoutSize, "for_release", forRelease)
 		}
 		rw.UpdateBasicStatus(si.State, si.Detail, si.StdoutSize)
 		if rw.LastUpdateError() != nil {
@@ -427,6 +461,9 @@ func (rw *remoteUnit) monitorRemoteStdout(mw *utils.JobContext) {
 			workSubmitCmd["subcommand"] = "results"
 			workSubmitCmd["unitid"] = remoteUnitID
 			workSubmitCmd["startpos"] = diskStdoutSize
+			if verifhook.On {
+				verifhook.Emit("rw", "rw_out_req", "id", rw.ID(), "from", diskStdoutSize, "recorded", remoteStdoutSize)
+			}
 			if red.SignWork {
 				signature, err := rw.GetWorkceptor().createSignature(red.RemoteNode)
 				if err != nil {
@@ -484,7 +521,10 @@ func (rw *remoteUnit) monitorRemoteStdout(mw *utils.JobContext) {
 					return
 				}
 			}()
-			_, err = io.Copy(stdout, reader)
+			verifN, err := io.Copy(stdout, reader)
+			if verifhook.On {
+				verifhook.Emit("rw", "rw_out_copied", "id", rw.ID(), "n", verifN, "ok", err == nil)
+			}
 			close(doneChan)
 			if err != nil {
 				var errmsg string
@@ -573,6 +613,9 @@ func (rw *remoteUnit) runAndMonitor(mw *utils.JobContext, forRelease bool, actio
 		go func() {
 			rw.monitorRemoteUnit(ctx, forRelease)
 			if forRelease {
+				if verifhook.On {
+					verifhook.Emit("rw", "rw_local_release", "id", rw.ID())
+				}
 				err := rw.BaseWorkUnitForWorkUnit.Release(false)
 				if err != nil {
 					rw.GetWorkceptor().nc.GetLogger().Error("Error releasing unit %s: %s", rw.UnitDir(), err)
@@ -613,6 +656,9 @@ func (rw *remoteUnit) startOrRestart(start bool) error {
 	newJobStarted := rw.topJC.NewJob(rw.GetWorkceptor().ctx, 1, true)
 	if !newJobStarted {
 		return fmt.Errorf("start or monitor process already running")
+	}
+	if verifhook.On {
+		verifhook.Emit("rw", "rw_start", "id", rw.ID(), "start", start, "started", red.RemoteStarted, "cancelled", red.LocalCancelled, "released", red.LocalReleased, "remote_id", red.RemoteUnitID)
 	}
 	if start || !red.RemoteStarted {
 		if !red.Expiration.IsZero() {
@@ -660,6 +706,10 @@ func (rw *remoteUnit) cancelOrRelease(release bool, force bool) error {
 		}
 		remoteStarted = status.ExtraData.(*RemoteExtraData).RemoteStarted
 	})
+	if verifhook.On {
+		verifhook.Emit("rw", "rw_op", "id", rw.ID(), "release", release, "force", force, "started", remoteStarted)
+	}
+	verifhook.CrashPoint("remote_after_local_cancel_mark")
 	// if remote work has not started, don't attempt to connect to remote
 	if !remoteStarted {
 		rw.topJC.Cancel()
